@@ -561,7 +561,7 @@ class C14(Prop):
              "vwrite_trailing_flush_sends": 0, "writes_on_dead_or_closed": 0,
              "lf_guard_chunk_N_minus_1": 0, "snoop_forwards": 0, "users_ascii_or_default": 0, "users_telnet": 0,
              "users_console": 0, "cases_multi_user": 0, "peerfin": 0, "peerclose": 0, "eflush_or_flushall": 0,
-             "sendres_E_keep": 0, "cases_reactive": 0, "nested_writes": 0, "lpcerr": 0, "react_destructs": 0,
+             "sendres_E_keep": 0, "cases_reactive": 0, "nested_writes": 0, "lpcerr": 0, "react_errors": 0, "react_destructs": 0,
              "input_cmds": 0, "input_driven_writes": 0, "writes_straddling_ring_end": 0}
         for c in cases:
             users = set()
@@ -589,7 +589,8 @@ class C14(Prop):
                 nw = sum(1 for l in c.lines if " write " in " " + l or " vwrite " in " " + l or l.startswith(("write ", "vwrite ")))
                 tr = impl.get(c.id, [])
                 h["nested_writes"] += max(0, sum(1 for l in tr if " wbeg " in l) - nw)
-                h["lpcerr"] += sum(1 for l in tr if l.endswith(" lpcerr"))
+                h["lpcerr"] += sum(1 for l in tr if l.endswith(" lpcerr"))      # none since receive_snoop runs under safe_apply
+                h["react_errors"] += sum(l.split()[-1].split(",").count("x") for l in c.lines if "react" in l.split()[:2])
                 h["react_destructs"] += sum(1 for l in c.lines if " react " in " " + l and re.search(r"[ ,]d\d", l) is not None)
             inw = {}        # per user: None / [kind, sends so far, last was accept, gone at start]
             gone = {}
